@@ -313,3 +313,81 @@ def iteration_class(ctx, cls):
             if any(isinstance(a, (ast.For, ast.While)) for a in A.ancestors(n)):
                 flags.add('buffered')
     return flags, fn
+
+
+def sibling_default(ctx, rule, method, param, expected, why):
+    """sibling agreement on a signature default: every `method` of the Dataset family that has `param` gives it the
+    same default (Engler-style cross-check; the base class states the contract)."""
+    import ast as _ast
+    from .. import astutil as _A
+    rep = ctx.report
+    n = 0
+    for cls in [ctx.repo.dataset_base()] + list(family(ctx)):
+        mem = cls.own(method)
+        if mem is None or not mem.is_function:
+            continue
+        a = mem.node.args
+        pos = a.posonlyargs + a.args
+        dflt = dict(zip([x.arg for x in pos[len(pos) - len(a.defaults):]], a.defaults))
+        dflt.update({k.arg: d for k, d in zip(a.kwonlyargs, a.kw_defaults) if d is not None})
+        if param not in [x.arg for x in pos + a.kwonlyargs]:
+            continue
+        n += 1
+        d = dflt.get(param)
+        ok = d is not None and _A.is_const(d, expected)
+        rep.ob(rule, key(cls, method, 'default(%s=%r)' % (param, expected)), ok, mem.node,
+               '' if ok else '%s.%s declares %s=%s where the rest of the family declares %s=%r: %s' % (
+                   cls.name, method, param, _A.short(d) if d is not None else '<required>', param, expected, why),
+               nontrivial=False)
+    return n
+
+
+def api_wiring(ctx, rule, only=None, floor=None):
+    """API wiring (sibling regularity over the combinator methods of the base class): a method `Dataset.m(self, p...)`
+    that constructs a stage `X(...)` binds X's input parameter to `self`, and every parameter of X that has the same
+    name as a parameter of `m` receives an expression that mentions that parameter (never the default, never another
+    one). `only`: restrict to these method names."""
+    import ast as _ast
+    from .. import astutil as _A, flow as _flow
+    from ..effects import INPUT_ATTR as _IN
+    rep = ctx.report
+    base = ctx.repo.dataset_base()
+    fam = {c.name: c for c in ctx.repo.dataset_family()}
+    n = 0
+    for mname, mem in base.members.items():
+        if not mem.is_function or (only is not None and mname not in only):
+            continue
+        fn = mem.node
+        selfname = fn.args.args[0].arg if fn.args.args else 'self'
+        mparams = [a.arg for a in fn.args.posonlyargs + fn.args.args + fn.args.kwonlyargs][1:]
+        for c in _A.walk_local(fn):
+            if not (isinstance(c, _ast.Call) and isinstance(c.func, _ast.Name) and c.func.id in fam):
+                continue
+            X = fam[c.func.id]
+            init = X.resolve('__init__')
+            if init is None or not init.is_function or init.node.args.vararg is not None:
+                continue
+            if any(isinstance(a, _ast.Starred) for a in c.args) or (
+                    any(k.arg is None for k in c.keywords) and init.node.args.kwarg is None):
+                rep.undecided(rule, key(base, mname, 'wiring->%s' % X.name), c, 'star arguments in the constructor call')
+                continue
+            b = _flow.bind(c, init.node)
+            xparams = [a.arg for a in init.node.args.posonlyargs + init.node.args.args + init.node.args.kwonlyargs][1:]
+            n += 1
+            if _IN in xparams:
+                e = b.args.get(_IN)
+                ok = _A.is_name(e, selfname)
+                rep.ob(rule, key(base, mname, 'input-of-%s-is-self' % X.name), ok, c,
+                       '' if ok else '%s is constructed with %s=%s: the new stage does not read from the dataset the '
+                       'method was called on' % (X.name, _IN, _A.short(e) if e is not None else '<missing>'))
+            for p in xparams:
+                if p not in mparams:
+                    continue
+                e = b.args.get(p)
+                ok = e is not None and p in _A.names_in(e)
+                rep.ob(rule, key(base, mname, 'passes(%s)->%s' % (p, X.name)), ok, c,
+                       '' if ok else 'the %s given to Dataset.%s does not reach %s (it gets %s)' % (
+                           p, mname, X.name, _A.short(e) if e is not None else 'its default'))
+    if floor is not None:
+        rep.floor('stage constructions in the combinator methods', n, floor)
+    return n
